@@ -50,6 +50,11 @@ class Job:
     name: str = ""
     env: dict = field(default_factory=dict)
     note: str = ""
+    # "counterexample": the condition states the *absence* of a witness; a replayed counterexample IS the witness we want
+    # (obligation discharged), "confirmed over all paths" means no witness exists within the bound = a violation, which is
+    # then re-established natively by evaluating `exhaustive_call` (must return False) before it is reported
+    expect: str = ""
+    exhaustive_call: str = ""
 
     @property
     def ident(self) -> str:
@@ -190,6 +195,8 @@ class Ctx:
             ob.detail["error"] = rec.get("error")
             self.harness_errors.append(f"{j.ident}: {str(rec.get('error'))[-600:]}")
             return ob
+        if j.expect == "counterexample":
+            return self._classify_witness(j, rec, ob, twin)
         if twin and twin["verdict"] != "reachable" and v != "counterexample":
             # harness never reaches its assertion: whatever it says is vacuous
             if v == "confirmed":
@@ -226,6 +233,36 @@ class Ctx:
             else:
                 self.violations.append({"what": what, "replay": path})
             self.samples.append({"obligation": j.ident, "counterexample": call})
+        return ob
+
+    def _classify_witness(self, j: Job, rec: dict, ob: Obligation, twin) -> Obligation:
+        v = rec.get("verdict")
+        if v == "counterexample":
+            cx = (rec.get("counterexamples") or [{}])[0]
+            call = cx.get("call")
+            ok, path = (self.replay(j.harness, call, j.env, tag="wit") if call else (None, ""))
+            ob.detail["witness"] = {"call": call, "replay": path, "reproduced": ok}
+            if ok is True:
+                ob.verdict = "confirmed"
+                self.samples.append({"obligation": j.ident, "witness": call})
+            else:
+                ob.verdict = "error"
+                self.harness_errors.append(f"{j.ident}: witness {call} does not reproduce natively")
+            return ob
+        if v == "confirmed":
+            if twin and twin["verdict"] != "reachable":
+                ob.verdict = "vacuous"
+                self.harness_errors.append(f"{j.ident}: vacuous (twin verdict {twin['verdict']})")
+                return ob
+            ok, path = self.replay(j.harness, j.exhaustive_call, j.env, tag="cx")
+            ob.detail["exhaustive_replay"] = {"path": path, "reproduced": ok}
+            if ok is True:
+                ob.verdict = "counterexample"
+                self.violations.append({"what": f"{j.ident}: no witness exists within the bound ({j.note})", "replay": path})
+            else:
+                ob.verdict = "error"
+                self.harness_errors.append(f"{j.ident}: solver found no witness but the native enumeration disagrees ({ok})")
+            return ob
         return ob
 
     # ------------------------------------------------------------------ generic obligations
